@@ -199,6 +199,10 @@ def fixed_cases():
                 L += ["A 0 %d" % c, "S 0 %d" % T]
             L.append("X")
             cases.append({"env": "1", "name": "fixed-%d-%s" % (ipa, pat), "lines": L})
+    # items larger than 16 pages: the "at least two items per slab" clamp is what makes ipa = 2
+    cases.append({"env": "1", "name": "fixed-huge-items", "lines":
+                  ["C 0 70000 0 0", "A 0 0", "A 0 0", "A 0 1", "F 0 1 0", "F 0 1 1", "F 0 1 2", "S 0 2", "A 0 0", "S 0 2",
+                   "C 1 65536 4096 1", "A 1 0", "A 1 0", "A 1 0", "S 1 1", "C 2 61441 0 0", "C 3 61440 32 0", "X"]})
     # sticky static max_alloc_size: a big pool changes the geometry of later small pools
     cases.append({"env": "1", "name": "fixed-sticky-max", "lines":
                   ["C 0 16 0 0", "C 1 40000 0 1", "C 2 16 0 0", "A 0 0", "A 2 0", "A 1 1", "A 1 1", "A 1 1", "F 1 0 2", "F 1 0 3",
@@ -206,11 +210,35 @@ def fixed_cases():
     return cases
 
 
+def gen_sweep(rng, pagesize, n):
+    """creation only: size arithmetic around page / alignment / limit boundaries"""
+    L = []
+    for _ in range(n):
+        k = rng.below(6)
+        if k == 0:
+            size = rng.choice(SIZES)
+        elif k == 1:
+            size = max(1, rng.range(1, 40) * pagesize // rng.choice([1, 2, 4, 8]) + rng.range(-2, 2))
+        elif k == 2:
+            size = rng.range(1, 300)
+        elif k == 3:
+            size = max(1, (1 << rng.range(3, 17)) + rng.range(-1, 1))
+        else:
+            size = rng.range(1, 200000)
+        align = rng.choice(ALIGNS + [2, 4, 512, 2048, 16384, 65536])
+        L += ["C 0 %d %d %d" % (size, align, rng.below(2)), "A 0 0", "A 0 1", "D 0"]
+    return {"name": "sweep", "lines": L + ["X"]}
+
+
 def gen_group(rng, pagesize, env, ncases, quick):
     """cases for one harness process (the function-static max_alloc_size persists across them)"""
     envmax = env_value(env)
     mx = 0
-    cases = []
+    cases = [dict(gen_sweep(rng.fork(), pagesize, 25 if quick else 60), env=env)]
+    for l in cases[0]["lines"]:
+        if l.startswith("C "):
+            _, _, sz, al, _ = l.split()
+            mx = py_sizes(pagesize, envmax, mx, int(sz), int(al))[2]
     for ci in range(ncases):
         T = rng.choice([1, 2, 2, 3, 4, 4, 8])
         g = Gen(rng.fork(), T)
